@@ -319,7 +319,7 @@ Definition rule_uses_one (defs : PM.t dinfo) (p : pinstr) : list violation :=
                       | Some d => if pi_idx (d_pi d) <? idx then []
                                   else if (op =? 32) && (def_op defs id =? 30) then []   (* pointer to a forward-declared struct *)
                                   else [V "global_use_before_def" idx id op]
-                      | None => [] end) (all_ids p)
+                      | None => [] end) ((if pi_ty p =? 0 then [] else [pi_ty p]) ++ pi_uses p)
     else [] in
   (* classes *)
   let want_type (id : Z) := match pm_find id defs with
@@ -663,10 +663,16 @@ Fixpoint dup_merges (seen : list Z) (hs : list hdr) : list violation :=
 Definition exit_targets (hs : list hdr) : list Z :=
   flat (fun h => h_merge h :: (if h_loop h then [h_cont h; h_blk h] else [])) hs.
 
+(* the blocks a branch in block [u] may legally leave its constructs to: the merge block,
+   continue target or loop header of a construct that contains u (u is dominated by the
+   header and not by the merge block, 2.11) *)
+Definition exits_for (fi : fninfo) (hs : list hdr) (u : Z) : list Z :=
+  flat (fun h => if reachable_blk fi (h_blk h) && dom fi (h_blk h) u && negb (dom fi (h_merge h) u)
+                 then h_merge h :: (if h_loop h then [h_cont h; h_blk h] else []) else []) hs.
+
 Definition rule_structured (fi : fninfo) : list violation :=
   let bs := fi_blocks fi in
   let hs := headers bs in
-  let exits := exit_targets hs in
   let loop_headers := flat (fun h => if h_loop h then [h_blk h] else []) hs in
   dup_merges [] hs ++
   flat (fun h =>
@@ -702,7 +708,8 @@ Definition rule_structured (fi : fninfo) : list violation :=
       else if pi_op t =? 250 then
         let t1 := nthz 1 (pi_uses t) in
         let t2 := nthz 2 (pi_uses t) in
-        if (t1 =? t2) || memz t1 exits || memz t2 exits then []
+        let ex := exits_for fi hs (b_label b) in
+        if (t1 =? t2) || negb (reachable_blk fi (b_label b)) || memz t1 ex || memz t2 ex then []
         else [V "conditional_branch_without_merge" (pi_idx t) (b_label b) 0]
       else []
     end) bs ++
@@ -715,7 +722,7 @@ Definition rule_structured (fi : fninfo) : list violation :=
         flat (fun t =>
           if negb (is_label_of fi t) then []
           else if dom fi (h_blk h) t then []
-          else if memz t exits then []
+          else if memz t (exits_for fi hs u) then []
           else [V "branch_out_of_construct" (pi_idx (b_term b)) (h_blk h) t]) (term_targets (b_term b))
       else []) bs) hs.
 
@@ -736,4 +743,22 @@ Definition rule_function (defs : PM.t dinfo) (f : fn) : list violation :=
     flat (rule_branch_targets fi) bs ++
     flat (rule_block_uses defs fi) bs ++
     rule_structured fi
+  end.
+
+(* ------------------------------------------------------------------ *)
+(* 9. non-aggregate types are declared once (2.8)                        *)
+
+(* OpTypeArray, OpTypeRuntimeArray, OpTypeStruct (aggregates) and OpTypePointer may repeat *)
+Definition unique_type_op (op : Z) : bool :=
+  is_type_op op && negb ((op =? 28) || (op =? 29) || (op =? 30) || (op =? 32) || (op =? 39)).
+
+Fixpoint dup_types (seen : list (Z * list Z)) (ps : list pinstr) : list violation :=
+  match ps with
+  | [] => []
+  | p :: r =>
+    if unique_type_op (pi_op p) then
+      if existsb (fun k => (fst k =? pi_op p) && eq_list (snd k) (pi_args p)) seen
+      then V "duplicate_type_declaration" (pi_idx p) (pi_res p) (pi_op p) :: dup_types seen r
+      else dup_types ((pi_op p, pi_args p) :: seen) r
+    else dup_types seen r
   end.
